@@ -1,3 +1,246 @@
+(* C19 — resource requests map pins one-to-one and constraints name the right pin.
+   Only statements here; proofs live in Proofs/ResP.v.  Model: Model/Res.v
+   (request/merge_options/resolve/map_names/iter_port_constraints_bits as written in
+   amaranth/build/{res,dsl,plat}.py).  All theorems quantify over every resource table `t`,
+   every connector table `cm`, every manager state / request history, unless a hypothesis says otherwise. *)
 From Coq Require Import ZArith List Bool.
 From V.Model Require Import Res.
 From V.Proofs Require Import ResP.
+Import ListNotations.
+Open Scope Z_scope.
+
+(* ------------------------------------------------------------------ example platform (non-vacuity)
+   a = Pins("P0 J0:1"), b = (s0 = Pins("P2", dir=oe, Clock), s1 = PinsN("J1:1", dir=i)), c = DiffPairsN("P2","P3", Clock);
+   connectors J0:1 -> P1, J1:1 -> J0:1 (a chain of length 2); b.s1 collides with a on P1. *)
+Definition ex_cm : connmap := [((0, 1), Plat 1); ((1, 1), CPin 0 1)].
+Definition ex_a : node := Leaf 0 [] (mkLeaf (PPins [Plat 0; CPin 0 1]) Dio false None).
+Definition ex_b : node :=
+  Group 1 [(0, 1)] [Leaf 0 [] (mkLeaf (PPins [Plat 2]) Doe false (Some 10000000));
+                    Leaf 1 [(1, 2)] (mkLeaf (PPins [CPin 1 1]) Di true None)].
+Definition ex_c : node := Leaf 2 [] (mkLeaf (PDiff [Plat 2] [Plat 3]) Di true (Some 8000000)).
+Definition ex_tbl : table := [(0, ex_a); (0, ex_b); (0, ex_c)].
+Definition ex_req (n : Z) : req := mkReq n 0 DDash XNone.
+Definition ex_hist : list req := [ex_req 0; ex_req 1; ex_req 2; ex_req 0].
+Definition ex_st1 : state := fst (run ex_tbl ex_cm [ex_req 0]).
+
+(* ------------------------------------------------------------------ a resource can be requested at most once *)
+Theorem C19_request_at_most_once t cm st q :
+  In (q_key q) (requested st) -> request t cm st q = (st, Error EResource).
+Proof. exact (request_again t cm st q). Qed.
+Print Assumptions C19_request_at_most_once.
+
+Theorem C19_granted_once t cm hist :
+  let (st, outs) := run t cm hist in
+  NoDup (gkeys (granted outs)) /\ requested st = gkeys (granted outs).
+Proof.
+  pose proof (run_inv t cm hist) as H. destruct (run t cm hist) as [st outs].
+  destruct H as (R & _ & _ & _ & K & _). split; assumption.
+Qed.
+Print Assumptions C19_granted_once.
+
+Example C19_at_most_once_example :
+  In (q_key (ex_req 0)) (requested ex_st1) /\
+  map (fun o => match snd o with Ok _ => 1 | Error _ => 0 end) (snd (run ex_tbl ex_cm ex_hist)) = [1; 0; 1; 0].
+Proof. split; [left; reflexivity|vm_compute; reflexivity]. Qed.
+
+(* ------------------------------------------------------------------ no two granted requests share a physical pin *)
+(* in the state reached by ANY history the pins of all granted requests (every leaf, p and n,
+   after connector resolution) are pairwise distinct, and they are exactly the allocation *)
+Theorem C19_pins_injective t cm hist :
+  let (st, outs) := run t cm hist in
+  NoDup (gpins (granted outs)) /\ map fst (phys_reqd st) = gpins (granted outs).
+Proof.
+  pose proof (run_inv t cm hist) as H. destruct (run t cm hist) as [st outs].
+  destruct H as (_ & P & N & _). split; assumption.
+Qed.
+Print Assumptions C19_pins_injective.
+
+(* the later request is refused and changes nothing *)
+Theorem C19_conflict_refused t cm st q res st' r :
+  tbl_lookup t (q_key q) = Some res -> request t cm st q = (st', r) ->
+  (exists a, In a (map fst (phys_reqd st)) /\ uses cm res a) ->
+  exists e, r = Error e /\ st' = st.
+Proof. exact (request_conflict t cm st q res st' r). Qed.
+Print Assumptions C19_conflict_refused.
+
+(* ... with ResourceError when nothing else is wrong with the request.  For the recommended dir="-":
+   on a resource whose subsignal names are distinct (wf_node) and whose declared names all resolve,
+   the only possible refusal is ResourceError *)
+Theorem C19_conflict_is_ResourceError t cm st q res st' e :
+  tbl_lookup t (q_key q) = Some res -> key_mem (q_key q) (requested st) = false ->
+  wf_node res -> q_dir q = DDash -> q_xdr q = XNone ->
+  Forall (leaf_resolves (cm_fuel cm) cm) (leaves_of res) ->
+  request t cm st q = (st', Error e) -> e = EResource.
+Proof. exact (request_dash_refusal t cm st q res st' e). Qed.
+Print Assumptions C19_conflict_is_ResourceError.
+
+(* for arbitrary dir/xdr overrides: if merge_options accepted them and every leaf option is "-" or a
+   direction with xdr in 0..2 (opts_ok, a decidable condition on the merged options) *)
+Theorem C19_refusal_kind t cm st q res d x st' e :
+  tbl_lookup t (q_key q) = Some res -> key_mem (q_key q) (requested st) = false ->
+  merge_options res (q_dir q) (q_xdr q) = inr (d, x) ->
+  Forall (fun j => opts_ok (j_d j) (j_x j)) (flatten res d x (root_path q) (node_attrs res)) ->
+  Forall (leaf_resolves (cm_fuel cm) cm) (leaves_of res) ->
+  request t cm st q = (st', Error e) -> e = EResource.
+Proof. exact (request_refusal_kind t cm st q res d x st' e). Qed.
+Print Assumptions C19_refusal_kind.
+
+Example C19_conflict_example :
+  tbl_lookup ex_tbl (q_key (ex_req 1)) = Some ex_b /\
+  (exists a, In a (map fst (phys_reqd ex_st1)) /\ uses ex_cm ex_b a) /\
+  key_mem (q_key (ex_req 1)) (requested ex_st1) = false /\ wf_node ex_b /\
+  (exists d x, merge_options ex_b DDash XNone = inr (d, x) /\
+     Forall (fun j => opts_ok (j_d j) (j_x j)) (flatten ex_b d x (root_path (ex_req 1)) (node_attrs ex_b))) /\
+  Forall (leaf_resolves (cm_fuel ex_cm) ex_cm) (leaves_of ex_b) /\
+  request ex_tbl ex_cm ex_st1 (ex_req 1) = (ex_st1, Error EResource).
+Proof.
+  split; [reflexivity|]. split.
+  { exists 1. split; [vm_compute; auto|].
+    exists (mkLeaf (PPins [CPin 1 1]) Di true None). split; [vm_compute; auto|].
+    exists [CPin 1 1], [1]. split; [left; reflexivity|]. split; [reflexivity|left; reflexivity]. }
+  split; [reflexivity|]. split.
+  { constructor; [cbn; repeat constructor; cbn; intuition discriminate|repeat constructor]. }
+  split.
+  { eexists. eexists. split; [vm_compute; reflexivity|].
+    repeat constructor. }
+  split; [|vm_compute; reflexivity].
+  repeat constructor; eexists; vm_compute; reflexivity.
+Qed.
+
+(* ------------------------------------------------------------------ a refused request leaves the allocation unchanged *)
+Theorem C19_refused_leaves_state t cm st q st' e :
+  request t cm st q = (st', Error e) -> st' = st.
+Proof. exact (request_error t cm st q st' e). Qed.
+Print Assumptions C19_refused_leaves_state.
+
+(* non-vacuity: the refused request of b first claims P2 and the clock of b.s0, then fails on P1;
+   afterwards c (which needs P2) is granted — the history that exposed F5 *)
+Example C19_refused_example :
+  exists e, request ex_tbl ex_cm ex_st1 (ex_req 1) = (ex_st1, Error e) /\
+  exists v st2, request ex_tbl ex_cm ex_st1 (ex_req 2) = (st2, Ok v) /\ In 2 (map fst (phys_reqd st2)).
+Proof. eexists. split; [vm_compute; reflexivity|]. eexists. eexists. split; [vm_compute; reflexivity|]. vm_compute. auto. Qed.
+
+(* ------------------------------------------------------------------ returned ports: one bit per declared pin, in order *)
+(* leaf by leaf (depth first, in declaration order): bit k of io/p/n carries the k-th declared name
+   resolved through the connectors; inversion as declared; direction as declared with oe -> o;
+   the clock constraint recorded for the port is the declared one *)
+Theorem C19_port_bits_in_declared_order t cm st q st' v :
+  request t cm st q = (st', Ok v) ->
+  exists res, tbl_lookup t (q_key q) = Some res /\ Forall2 (decl_matches cm) (leaves_of res) (leaves v).
+Proof.
+  intros H. destruct (request_ok_decl t cm st q st' v H) as (res & Hl & Hm & _). exists res; split; assumption.
+Qed.
+Print Assumptions C19_port_bits_in_declared_order.
+
+Theorem C19_port_bit_k cm ns ps :
+  names_resolve cm ns ps ->
+  length ns = length ps /\
+  forall k n, nth_error ns k = Some n ->
+    exists p, nth_error ps k = Some p /\ resolve_name (cm_fuel cm) cm n = MOk p /\ chain cm n p.
+Proof.
+  intros H. destruct (Forall2_nth_error _ _ _ H) as (Hl & Hk). split; [exact Hl|].
+  intros k n Hn. destruct (Hk k n Hn) as (p & Hp & Hr). exists p. repeat split; auto.
+  eapply resolve_name_chain; eauto.
+Qed.
+Print Assumptions C19_port_bit_k.
+
+Theorem C19_granted_ports_in_history t cm hist :
+  Forall (granted_ok t cm) (granted (snd (run t cm hist))).
+Proof. pose proof (run_inv t cm hist) as H. destruct H as (_ & _ & _ & _ & _ & G). exact G. Qed.
+Print Assumptions C19_granted_ports_in_history.
+
+Example C19_port_bits_example :
+  exists st' v, request ex_tbl ex_cm init_state (ex_req 0) = (st', Ok v) /\
+    map (fun l => pt_p (lv_port l)) (leaves v) = [[0; 1]].
+Proof. eexists. eexists. split; vm_compute; reflexivity. Qed.
+
+(* ------------------------------------------------------------------ connector chains *)
+(* for an acyclic connector table the resolution of any name terminates (no fuel exhaustion):
+   NameError, or a platform pin reached by following the chain; with all references present, a pin *)
+Theorem C19_map_names_chain cm n : acyclic cm ->
+  (resolve_name (cm_fuel cm) cm n = MMissing \/ exists p, resolve_name (cm_fuel cm) cm n = MOk p /\ chain cm n p)
+  /\ (closed cm -> present cm n -> exists p, resolve_name (cm_fuel cm) cm n = MOk p /\ chain cm n p).
+Proof. exact (map_names_chain cm n). Qed.
+Print Assumptions C19_map_names_chain.
+
+(* the fuel is not a bound on behaviour: a terminating resolution is the same for any larger fuel,
+   and every chain to a platform pin is found with enough fuel *)
+Theorem C19_map_names_fuel_independent cm fuel n r k :
+  resolve_name fuel cm n = r -> r <> MLoop -> resolve_name (fuel + k) cm n = r.
+Proof. intros H Hr. exact (resolve_name_fuel_mono cm fuel n r H Hr k). Qed.
+Print Assumptions C19_map_names_fuel_independent.
+
+Example C19_chain_example :
+  acyclic ex_cm /\ closed ex_cm /\ present ex_cm (CPin 1 1) /\ resolve_name (cm_fuel ex_cm) ex_cm (CPin 1 1) = MOk 1.
+Proof.
+  split; [|split; [|split; [|reflexivity]]].
+  - exists (fun k => if fst k =? 1 then 1%nat else 0%nat). intros [c k] c' k' H. cbn in H.
+    destruct (ckey_eqb (0, 1) (c, k)); [discriminate|].
+    destruct (ckey_eqb (1, 1) (c, k)) eqn:E; [|discriminate].
+    inversion H; subst. apply ckey_eqb_eq in E. inversion E; subst. cbn. auto.
+  - intros [c k] c' k' H. cbn in H.
+    destruct (ckey_eqb (0, 1) (c, k)); [discriminate|].
+    destruct (ckey_eqb (1, 1) (c, k)); [|discriminate]. inversion H; subst. intros Hx; vm_compute in Hx; discriminate Hx.
+  - intros Hx; vm_compute in Hx; discriminate Hx.
+Qed.
+
+(* S4: without the acyclicity hypothesis the statement is false of the faithful model — for connectors
+   that refer to each other the `while ":" in name` loop of Pins.map_names never terminates *)
+Theorem C19_map_names_chain_refuted :
+  exists cm n, forall fuel, resolve_name fuel cm n = MLoop.
+Proof. exists cyc_cm, (CPin 0 1). intros fuel. exact (proj1 (cyclic_loops fuel)). Qed.
+Print Assumptions C19_map_names_chain_refuted.
+
+(* ------------------------------------------------------------------ constraints *)
+(* For the state reached by any history, with `ports` = the I/O ports of all granted requests:
+   the constraint list names exactly the allocated pins, in order, so no pin is assigned twice — also for
+   any subset of used ports; the port clock constraints are exactly the clocks of the granted leaves, each once;
+   every port belongs to a granted request. *)
+Theorem C19_constraints_exact t cm hist :
+  let (st, outs) := run t cm hist in
+  let ports := gports (granted outs) in
+  map c_pin (port_constraints ports) = map fst (phys_reqd st) /\
+  NoDup (map c_pin (port_constraints ports)) /\
+  (forall used, NoDup (map c_pin (port_constraints (filter used ports)))) /\
+  clock_constraints st = gclocks (granted outs) /\
+  (forall p, In p ports -> In (fst (fst (io_name p))) (requested st)).
+Proof.
+  pose proof (run_inv t cm hist) as H. destruct (run t cm hist) as [st outs].
+  unfold Inv in H. cbn [fst snd] in H. destruct H as (R & P & N & C & K & G). cbn zeta.
+  pose proof (gports_pins t cm _ G) as GP.
+  repeat split.
+  - rewrite port_constraints_pins, GP, P. reflexivity.
+  - rewrite port_constraints_pins, GP. exact N.
+  - intros used. rewrite port_constraints_pins. apply NoDup_concat_filter. rewrite GP. exact N.
+  - exact C.
+  - intros p Hp. rewrite R. eapply gports_names_head; eauto.
+Qed.
+Print Assumptions C19_constraints_exact.
+
+(* each port contributes one entry per bit, in order: entry k is `name` (1-bit port) or `name[k]`
+   and carries pin k of the port *)
+Theorem C19_constraint_entries p :
+  length (port_entries p) = length (io_meta p) /\
+  forall k m, nth_error (io_meta p) k = Some m ->
+    nth_error (port_entries p) k = Some (mkC (io_name p) (bit_name (length (io_meta p)) k) m (io_attrs p)).
+Proof. split; [apply port_entries_length|intros k m; apply port_entries_nth]. Qed.
+Print Assumptions C19_constraint_entries.
+
+(* each declared clock of a granted resource appears with its period *)
+Theorem C19_clock_constraints t cm st q st' v :
+  request t cm st q = (st', Ok v) ->
+  exists res, tbl_lookup t (q_key q) = Some res /\
+    io_clocks st' = io_clocks st ++ value_clocks v /\ map snd (value_clocks v) = decl_clocks res.
+Proof.
+  intros H. destruct (request_ok_decl t cm st q st' v H) as (res & Hl & Hm & _).
+  destruct (request_ok t cm st q st' v H) as (res' & d & x & Hl' & _ & _ & _ & _ & _ & _ & C & _).
+  exists res. repeat split; auto. eapply decl_clocks_value; eauto.
+Qed.
+Print Assumptions C19_clock_constraints.
+
+Example C19_constraints_example :
+  let (st, outs) := run ex_tbl ex_cm ex_hist in
+  map (fun c => (c_bit c, c_pin c)) (port_constraints (gports (granted outs)))
+    = [(Some 0, 0); (Some 1, 1); (None, 2); (None, 3)] /\
+  map snd (clock_constraints st) = [8000000].
+Proof. vm_compute. split; reflexivity. Qed.
